@@ -124,7 +124,7 @@ func hasBreak(s ast.Stmt) bool {
 
 	case *ast.BranchStmt:
 		if s.Tok == token.BREAK {
-			if s.Label == nil {
+			if s.Label != nil {
 				panic("labelled break not supported")
 			}
 			return true
